@@ -824,6 +824,10 @@ def streams(rng, tier):
                     except Exception:
                         pass
                 g.lines.append(l)
+        for l in list(g.meta):
+            other = ("eigen " + l[6:]) if l.startswith("naive ") else ("naive " + l[6:]) if l.startswith("eigen ") else None
+            if other in g.meta:
+                g.meta[l]["twin"] = other
     n = 600 if tier == "quick" else 8000
     table = [(g.unary, 5), (g.const, 5), (g.pown, 2), (g.scalar, 3), (g.binary, 5), (g.matmul, 3), (g.conv2d, 3),
              (g.pool, 3), (g.logsumexp, 1), (g.inplace, 2)]
@@ -1084,6 +1088,13 @@ def run_family(chk, prop):
         for name, why in broken.items():
             chk.report("obligation:" + name, "theorem %s no longer checks: %s" % (name, why),
                        {"theorem": name, "reason": why, "log": (chk.oblig or {}).get("log_tail", "")[-1500:]}, found_input=False)
+    import collections
+    kc = collections.Counter()
+    for line, (impl, model) in got.items():
+        kc[meta[line]["kernel"] + ":" + impl.split(" ")[0]] += 1
+    chk.extra_cov["karith_lines_by_kernel"] = dict(sorted(kc.items()))
+    chk.extra_cov["karith_metamorphic_groups"] = sum(1 for m in meta.values() if "samples" in m)
+    chk.extra_cov["karith_backend_pairs"] = sum(1 for l, m in meta.items() if l.startswith("naive ") and m.get("twin"))
     rule = ("karith: operation lines `<dev> <kernel> <tensors> <args>` for every arithmetic kernel (11 unary, 10 const, pown, 8 scalar, "
             "5 broadcasting binary, matmul, conv2d, max_pool2d, logsumexp, 3 in-place), forward, backward and `_grad` (bw∘fw) forms, each on "
             "Naive and Eigen; shapes of depth 0..4 with dims 1..5, batch patterns {1,B}x{1,B}; exact domain (small integers, dyadics) compared "
